@@ -304,7 +304,7 @@ def gen_plan(j, rng):
             elif f < 0.35:
                 op["net"] = [{"close": "before", "rst": rng.random() < 0.5}]
             elif f < 0.42:
-                op["net"] = [{"close": "after", "rst": rng.random() < 0.5}]
+                op["net"] = [{"close": "after", "rst": rng.random() < 0.5, "same_tick": rng.random() < 0.5}]
             elif f < 0.50:
                 op["hs"] = [{"drop": True}] * rng.randint(1, 3)
             elif f < 0.55:
